@@ -10,5 +10,5 @@ CONSTANTS
   QualOpts <- QConn
 INIT Init
 NEXT Next
-INVARIANTS TypeOK MechEqDecl HistoryFree RegistryClean RowidInv
+INVARIANTS TypeOK MechEqDecl LookupsEqDecl HistoryFree RegistryClean RowidInv
 CHECK_DEADLOCK FALSE
